@@ -56,45 +56,45 @@ DERIVE_RULE = ("generated Rust declarations deriving TypeInfo and Encode (harnes
 PROPS = {
     'C12': dict(
         streams=[
-            dict(name='interner', quick=2000, thorough=200000),
-            dict(name='builder', quick=600, thorough=60000),
+            dict(name='interner', quick=2000, thorough=100000),
+            dict(name='builder', quick=600, thorough=30000),
         ],
         rule="random op sequences (interner: <=60/200 ops over alphabets of 2..30 values, out-of-range resolve through a symbol of a second interner; builder: <=25/60 ops over Type<PortableForm> values incl. duplicates after unrelated insertions, self references through next_type_id, wild ids); thorough adds every interner sequence of length <=5 over {intern,get,resolve}x{0,1,2}+elements (exhaustive). A case is non-trivial when at least one operation returned an existing index (a duplicate arrived); distinct = distinct case lines.",
         trusted_base=COMMON_TB,
         assumptions=["Ord on interned values is consistent with Eq (derived impls)", "Symbol ids fit usize/u32 (tables < 2^32 entries)"],
     ),
     'C18': dict(
-        streams=[dict(name='path', quick=4000, thorough=400000)],
+        streams=[dict(name='path', quick=4000, thorough=200000)],
         rule="exhaustive: every single-segment string of length <=4 (quick) / <=6 (thorough) over the class-representative alphabet {a,Z,_,7,r,#,:,space,e-acute} through Path::from_segments; plus random segment lists, module paths (separators ::, :, :::) and replacement tables (0-3 rows, overlapping rows) through Path::new / new_with_replace with panics caught; accessors ident/namespace/Display observed on every constructed path. Non-trivial: the case reaches identifier validation (not the empty list).",
         trusted_base=COMMON_TB,
         assumptions=["str::split(\"::\"), strip_prefix, is_ascii behave as their documentation says (modelled in SIM.Model.Path)"],
     ),
     'C06': dict(
         translators=['extract_codec_tags.py'],
-        streams=[dict(name='codec', quick=1500, thorough=100000, filter=only('C06:'))],
+        streams=[dict(name='codec', quick=1500, thorough=60000, filter=only('C06:'))],
         rule=CODEC_RULE,
         trusted_base=COMMON_TB + ["parity-scale-codec 3.7.5 is the party being compared with (its derive output for the scale-info types and its Compact/Vec/String/Option impls are modelled in SIM.Model.Codec)"],
         assumptions=["the layout in the property statement is what SIM.Model.Codec.encode/decode transcribe"],
     ),
     'C07': dict(
-        streams=[dict(name='codec', quick=1500, thorough=100000, filter=only('C07:'))],
+        streams=[dict(name='codec', quick=1500, thorough=60000, filter=only('C07:'))],
         rule=CODEC_RULE + " C07 clauses: library decode(encode(r))==r with nothing left over, encode twice equal, no two distinct generated registries share bytes (hash map over the run).",
         trusted_base=COMMON_TB,
         assumptions=["Bounded (ids/lengths < 2^32, indices < 256, strings valid UTF-8) is exactly what the Rust types can hold"],
     ),
     'C14': dict(
-        streams=[dict(name='codec', quick=1500, thorough=100000, filter=only('C14:')),
-                 dict(name='json', quick=500, thorough=40000, filter=only('C14:'))],
+        streams=[dict(name='codec', quick=1500, thorough=60000, filter=only('C14:')),
+                 dict(name='json', quick=500, thorough=25000, filter=only('C14:'))],
         rule=CODEC_RULE + " C14 clauses on dec cases: no panic (catch_unwind; an abort kills the harness and is reported as CRASH), peak allocation <= 1024*len + 131072 bytes (counting allocator), an accepted input re-encodes to exactly the consumed bytes (library and layout encoder), resolve(len), resolve(len+7), resolve(u32::MAX) answer None.",
         trusted_base=COMMON_TB + ["never panics / never aborts / memory proportional to input are run-time facts observed on the generated inputs, not proved"],
         assumptions=["allocation bound constants 1024 and 131072 (the codec pre-allocates up to 16 KiB regardless of input)"],
     ),
     'C01': dict(
         streams=[
-            dict(name='registry', quick=500, thorough=40000, filter=only('C01:')),
-            dict(name='builder', quick=400, thorough=40000, filter=only('C01 ')),
-            dict(name='retain', quick=800, thorough=100000, filter=only('C01:'), timeout=1800),
-            dict(name='codec', quick=600, thorough=40000, filter=only('C01:')),
+            dict(name='registry', quick=500, thorough=10000, filter=only('C01:')),
+            dict(name='builder', quick=400, thorough=20000, filter=only('C01 ')),
+            dict(name='retain', quick=800, thorough=60000, filter=only('C01:'), timeout=1800),
+            dict(name='codec', quick=600, thorough=20000, filter=only('C01:')),
         ],
         rule=REGISTRY_RULE + " Also: builder histories (closed and not closed over next_type_id), retain on well-formed registries with random filters, decode(encode(r)) of well-formed registries. C01 oracle = Spec.wf (dense and closed) on every registry the implementation produced: after every operation (Registry::types()), PortableRegistry::from, builder finish, retain result, decoded registry.",
         trusted_base=COMMON_TB,
@@ -102,7 +102,7 @@ PROPS = {
                      "builder closure is relative to the caller: proved and checked under 'every registered reference is below next_type_id at finish'"],
     ),
     'C02': dict(
-        streams=[dict(name='registry', quick=800, thorough=60000, filter=only('C02:')),
+        streams=[dict(name='registry', quick=800, thorough=15000, filter=only('C02:')),
                  dict(name='stdall', pg=True, mode='stdall', gen='gen_std.py', quick=120, thorough=2500, filter=only('C02:'), also_docs=True),
                  dict(name='twins', pg=True, mode='twins', gen='gen_std.py', quick=20, thorough=20, filter=only('C02:'))],
         rule=REGISTRY_RULE + " C02 oracle: rooted isomorphism (Spec.iso) between the generated type graph and the final registry starting from (identity, returned id) pairs: same path/params/fields/variants/indices/docs/lengths at every node, references corresponding, functional and injective; map_into_portable output = input fields with only references replaced.",
@@ -110,7 +110,7 @@ PROPS = {
         assumptions=["TypeId is an injective name of a type (identities modelled as Nat)"],
     ),
     'C05': dict(
-        streams=[dict(name='registry', quick=800, thorough=60000, filter=only('C05:')),
+        streams=[dict(name='registry', quick=800, thorough=15000, filter=only('C05:')),
                  dict(name='meta', pg=True, mode='meta', quick=60, thorough=700, filter=only('C05:'), also_docs=True),
                  dict(name='stdall', pg=True, mode='stdall', gen='gen_std.py', quick=60, thorough=700, filter=only('C05:')),
                  dict(name='twins', pg=True, mode='twins', gen='gen_std.py', quick=20, thorough=20, filter=only('C05:'))],
@@ -119,13 +119,13 @@ PROPS = {
         assumptions=["aliases of built-in std types (Box/Rc/Arc/&/Vec/VecDeque/slice/String/str/PhantomData) are covered by the meta stream of C16; here aliasing is exercised through the harness's Alias<N,K> family and the real PhantomData identity"],
     ),
     'C10': dict(
-        streams=[dict(name='retain', quick=1500, thorough=300000, filter=only('C10:'), timeout=3600)],
+        streams=[dict(name='retain', quick=1500, thorough=150000, filter=only('C10:'), timeout=3600)],
         rule="well-formed registries of 0..40 (thorough 64) entries, either uniformly random references or structured (local references: chains, small cycles, self loops; entries reachable only through a type parameter; skipped parameters before real ones), all eight definition kinds, x filters (empty, full, singleton, last, random 25%); the real retain under catch_unwind, its input flushed before the call so a hang is attributed. Oracle Spec.retainOk: result well-formed, keys = reachable set, bijection onto new ids, each entry = original with references mapped. Non-trivial: returned map has more than one entry.",
         trusted_base=COMMON_TB,
         assumptions=["the filter is a pure predicate (FnMut state not modelled)"],
     ),
     'C11': dict(
-        streams=[dict(name='registry', quick=800, thorough=60000, filter=only('C11:')),
+        streams=[dict(name='registry', quick=800, thorough=15000, filter=only('C11:')),
                  dict(name='stdall', pg=True, mode='stdall', gen='gen_std.py', quick=120, thorough=2500, filter=only('C11:'), also_docs=True)],
         rule=REGISTRY_RULE + " C11 oracle: every Registry::types() snapshot contains the previous one unchanged; the same history replayed gives byte-identical encode(); the distinct roots registered one by one in history order, in 3 (thorough 5) random permutations and reversed give registries of the same size that are rooted-isomorphic (Spec.iso from the returned ids) to the original.",
         trusted_base=COMMON_TB,
@@ -133,14 +133,14 @@ PROPS = {
     ),
     'C08': dict(
         translators=['extract_serde_attrs.py'],
-        streams=[dict(name='json', quick=800, thorough=60000, filter=only('C08:'))],
+        streams=[dict(name='json', quick=800, thorough=40000, filter=only('C08:'))],
         rule="generated registries (arbitrary and well-formed, every definition kind, optional parts present and absent, empty/long/multi-byte strings) through the real serde_json::to_value (ser cases: shape predicate, library round trip through Value and through text, independent reader) and 5 (thorough 10) structural mutations of each document (member removed/added/renamed incl. type_name, bitSequence, unknown keys; null; numbers at 255/256/2^32-1/2^32, negative, fractional; strings; arrays dropped/duplicated; object replaced by positional array in declaration order, truncated or with a surplus element; unit variant as a one-member map) plus 31 hand-written documents (optional members omitted / explicitly empty / null) through the real from_value under catch_unwind, compared with the model reader.",
         trusted_base=COMMON_TB + ["serde / serde_json 1.0 are modelled (SIM.Model.Json), tied by the differential runs only"],
         assumptions=["key order of JSON objects is not part of the property (canonicalised by sorting)",
                      "the payload of 'bitsequence' carries bit_store_type / bit_order_type (Rust field names), accepted by the shape predicate there and nowhere else"],
     ),
     'C17': dict(
-        streams=[dict(name='build', quick=3000, thorough=300000, also_docs=True),
+        streams=[dict(name='build', quick=3000, thorough=150000, also_docs=True),
                  dict(name='derive', pg=True, mode='derive', gen='gen_derive.py', quick=60, thorough=1200, filter=only('C17:'), also_docs=True),
                  dict(name='tinfo', pg=True, mode='tinfo', gen='gen_std.py', quick=120, thorough=2500, filter=only('C17:'))],
         rule="random builder programs executed on the real typestate builders, MetaForm (types Node<0..7>, PhantomData<u8> / PhantomData<Node<1>> and the non-marker std types () / Box<()> / str / String as member types, compact::<u8|u32|u128>()) and PortableForm (arbitrary u32 ids): type-level setters before and after .path(..) (type_params, docs, docs_always / docs_portable, repeated: last wins), composite with unit / named / unnamed fields (0-4 field builders, name and type set in either order, type_name and docs setters before, between and after), variants (0-3, index at a random position, discriminant, fields set repeatedly), plus TypeDefTuple::new over lists with PhantomData members and From<TypeDef> for Type; each program run by a harness built WITHOUT and WITH scale-info's docs feature. Derive and built-in impls: the generated derive corpus (with its fixed catalogue: markers inside tuples, as generic arguments, a user type merely named PhantomData) and the built-in corpus, clause 'exactly the declared members that are not PhantomData markers are listed'. Non-trivial: result has a reference or docs; distinct = distinct case lines.",
